@@ -258,7 +258,7 @@ def corpus_case(name):
                 bad.append(pid + ": " + "; ".join(l.strip()[:90] for l in out.splitlines() if l.strip().startswith("FAIL"))[:250])
         if bad:
             return ("corpus:" + name, "FAIL", f"{meta.get('style', '')[:60]} in {meta.get('function', '')[:40]}: alarm(s) {bad}")
-        return ("corpus:" + name, "ok", f"{meta.get('style', '')[:70]} ({meta.get('function', '')[:40]}): all 17 checks silent")
+        return ("corpus:" + name, "ok", f"{meta.get('style', '')[:70]} ({meta.get('function', '')[:40]}): all checks silent")
     finally:
         shutil.rmtree(repo, ignore_errors=True)
 
